@@ -238,7 +238,8 @@ Section PrintRun.
     run_log NM w op (rep_print NM c)
     = {| out_stdout := print_output NM c (filter (in_period NM op) L); out_status := Ok |}.
   Proof.
-    intros (Hs & Hne & Hfs & Hrf & Htok) H. unfold run_log, open_all, open_file.
+    intros (Hs & Hne & Hnd & Hfs & Hrf & Htok) H. unfold run_log, open_all, open_file.
+    destruct (beq (op_log op) dev_null) eqn:Eb; [apply beq_true_iff in Eb; contradiction|].
     destruct (op_log op) as [|p0 p'] eqn:Ep; [congruence|]. rewrite Hfs, Hrf. cbn [option_map].
     rewrite Htok.
     assert (Hg : good (new_writer w)) by (unfold new_writer, bw_new, good; cbn; rewrite Hs; split; reflexivity).
@@ -253,7 +254,8 @@ Section PrintRun.
     print_setting w op data toks -> read_log NM toks data = None ->
     exists e, out_status (run_log NM w op (rep_print NM c)) = Failed e.
   Proof.
-    intros (Hs & Hne & Hfs & Hrf & Htok) H. unfold run_log, open_all, open_file.
+    intros (Hs & Hne & Hnd & Hfs & Hrf & Htok) H. unfold run_log, open_all, open_file.
+    destruct (beq (op_log op) dev_null) eqn:Eb; [apply beq_true_iff in Eb; contradiction|].
     destruct (op_log op) as [|p0 p'] eqn:Ep; [congruence|]. rewrite Hfs, Hrf. cbn [option_map].
     rewrite Htok.
     assert (Hg : good (new_writer w)) by (unfold new_writer, bw_new, good; cbn; rewrite Hs; split; reflexivity).
@@ -289,7 +291,7 @@ Section PrintRun.
     split; [|reflexivity].
     set (Ls := filter (in_period NM op) L) in *.
     assert (Hsafe : forallb safe_tok toks = true).
-    { destruct S1 as (_ & _ & _ & _ & Htok). apply (PrintDates.tokenize_safe _ _ Htok). }
+    { destruct S1 as (_ & _ & _ & _ & _ & Htok). apply (PrintDates.tokenize_safe _ _ Htok). }
     destruct (read_log_shape NM toks data L H1) as [Hshape Hlay].
     assert (Hr : read_log NM toks (print_output NM c Ls) = Some (map (reread_day NM) Ls)).
     { destruct Ls as [|d0 Ls0] eqn:ELs; [apply read_log_nil|].
@@ -323,7 +325,7 @@ Definition op_ex : options :=
      op_begin := None; op_end := None; op_rc := cfg toks0 |}.
 
 Example setting_ex data : print_setting (world_with data) op_ex data toks0.
-Proof. unfold print_setting. repeat split; try reflexivity. discriminate. Qed.
+Proof. unfold print_setting. repeat split; try reflexivity; intro HH; vm_compute in HH; discriminate HH. Qed.
 
 Example run_twice_ex :
   let out1 := run_log ZNum (world_with (print_output ZNum (cfg toks0) log12)) op_ex (rep_print ZNum (cfg toks0)) in
